@@ -193,12 +193,19 @@ fn run_clone(ctx: &mut Ctx, cell: u32) {
         }
         "verify-header-mismatch" => {
             let mut sum = ra.header_checksum.clone();
-            match gen::draw(3) {
+            let mut odd = false;
+            match gen::draw(4) {
                 0 => sum[gen::draw(64) as usize] ^= 1 << gen::draw(8),
                 1 => sum = gen::blake2b512(b"another archive"),
+                // the right checksum, copied without its last hex digit: 127 digits are not it
+                2 => odd = true,
                 _ => sum.reverse(),
             }
-            verify_header = Some(gen::hex(&sum));
+            let mut h = gen::hex(&sum);
+            if odd {
+                h.pop();
+            }
+            verify_header = Some(h);
         }
         _ => {
             if gen::chance(1, 2) {
